@@ -900,6 +900,9 @@ def control_flow_harness(sym):
             def __ne__(self, o): return not (isinstance(o, XQ) and self.n == o.n)
             __hash__ = None
 
+            def __bool__(self):            # as Decimal: zero is falsy (the two operands are spelled differently: "<A>" / "<B>")
+                return bool(self.n != 0)
+
         class FakeReg:
             @staticmethod
             def Quantity(v, unit):
